@@ -236,7 +236,7 @@ def run(tier):
         remaining = remaining[bad_i + 1:]
     # allocation failures under the sanitizers (verif/allocfault.py): heap corruption is a violation, a stop on NULL is recorded
     from .. import allocfault
-    for what, scr in allocfault.asan_reader_sweep(ck, tier, wd, rnd):
+    for what, scr in allocfault.asan_reader_sweep(ck, tier, wd, rnd) + allocfault.asan_tool_sweep(ck, tier, wd, rnd):
         ck.violation(what, scr)
     if not ck.violations:
         common.write_ndjson(p, [{"op": "reset"}, {"op": "call", "name": "read", "ret": 1}, {"op": "Crash", "sig": 11}])
